@@ -14,7 +14,8 @@ import Ibx.Model.ConcFileOps
                                                   sub=m: RemoveAll at token j has removed m entries
     do <op>                                    run the complete operation -> views
     views                                      -> views
-    fault <op> refuse=<k,k,…|_> [dry=1]        run the operation with the hook calls k (0-based, in the order the code announces them
+    fault <op> refuse=<k,k,…|_> [dry=1] [noread=1]   (noread=1: the mailbox's index file, if there is one, cannot be opened — `opFR`)
+                                               run the operation with the hook calls k (0-based, in the order the code announces them
                                                to the verif step hook) REFUSED, following the code's error paths (Ibx/Model/FsFault.lean);
                                                the state becomes what the failed operation leaves (dry=1: the state is kept) ->
                                                `res=<ok|err|notExist> events=<id,…|_> trace=<hook,…|_> dir=<0|1> orphans=<raw:id,…,tmp|_> <views>`
@@ -137,8 +138,8 @@ def natList (t : String) : Option (List Nat) :=
 def csv (l : List String) : String := if l.isEmpty then "_" else ",".intercalate l
 
 /-- the `fault` command: the fault model's outcome of one operation -/
-def faultAnswer (s : St) (op : Op) (ks : List Nat) : St × String :=
-  let o := Ibx.Model.FsFault.opF C (layout s) s.cap (Ibx.Model.FsFault.refuse ks) op s.fs
+def faultAnswer (s : St) (op : Op) (ks : List Nat) (noread : Bool := false) : St × String :=
+  let o := Ibx.Model.FsFault.opFR C (layout s) s.cap (Ibx.Model.FsFault.refuse ks) noread op s.fs
   let d := o.fs.dirs op.box
   let orph := ((Ibx.Model.FsFault.orphanRaws C d).mergeSort (· ≤ ·)).map (fun i => s!"raw:{i}") ++ (if Ibx.Model.FsFault.hasTmp d then ["tmp"] else [])
   ({ s with fs := o.fs },
@@ -199,7 +200,7 @@ def step (s : St) (toks : List String) : St × String :=
   | "fault" :: rest =>
     match parseOp rest kv, (kv.get? "refuse") >>= natList with
     | some op, some ks =>
-      let a := faultAnswer s op ks
+      let a := faultAnswer s op ks (kv.get? "noread" == some "1")
       if kv.get? "dry" == some "1" then (s, a.2) else a
     | _, _ => (s, "bad-op")
   | "do" :: rest =>
